@@ -32,6 +32,7 @@ ASSUMPTIONS = [
     "mutations are applied with openpyxl in values mode (cached formula results replace the formulas of databooks and program books)",
     "generated program-book bases mark up to two rate/probability transition parameters targetable and hold two programs with constant spending",
     "generated databook bases carry one extra unit-less databook parameter (like 'contacts' in the library SIR framework)",
+    "the library tb program book (about a minute per read) is only checked unchanged, not mutated; malaria (framework only, 139 parameters) is only checked unchanged in the enumerated tier",
 ]
 BUDGET = {"quick": 1500, "thorough": 40000}
 TIME_CAP = {"quick": 60, "thorough": 1300}
@@ -40,6 +41,7 @@ LIB_DIR = None  # resolved lazily from the atomica package under test
 QUICK_LIBS = ["tb_simple", "udt", "hypertension", "hiv", "sir", "usdt", "dt", "sir_vaccine", "combined", "udt_dyn", "hypertension_dyn", "tb_simple_dyn"]
 ALL_LIB_FRAMEWORKS = ["cervicalcancer", "combined", "diabetes", "dt", "hiv", "hiv_dyn", "hypertension", "hypertension_dyn", "malaria", "service", "sir", "sir_vaccine", "tb", "tb_simple", "tb_simple_dyn", "udt", "udt_dyn", "usdt"]
 SITE_RANGE = 48
+HEAVY = {("tb", "progbook")}  # reading the tb program book takes about a minute per case: identity only
 
 # a small fixed valid model (used by replay files and as an enumerated base): source, sink, junction, timed compartment, two populations, transfer
 SMALL_SPEC = {
@@ -684,7 +686,7 @@ def cases(draw, tier):
         target = draw(st.sampled_from(["framework", "framework", "databook", "progbook"]))
         names = QUICK_LIBS if tier == "quick" else ALL_LIB_FRAMEWORKS
         if target != "framework":
-            names = [n for n in names if os.path.exists(_lib_path(n, target[:4] + "book"))]
+            names = [n for n in names if os.path.exists(_lib_path(n, target[:4] + "book")) and (n, target) not in HEAVY]
         name = draw(st.sampled_from(names))
         ids = [e.id for e in cat.entries_for(target)]
         k = draw(st.integers(0, 10**6))
@@ -745,7 +747,7 @@ def static_cases(tier):
     bases = [({"lib": n}, cap_lib) for n in ALL_LIB_FRAMEWORKS if n != "malaria"] + [({"gen": SMALL_SPEC}, cap_lib)] + [({"gen": s}, cap_gen) for s in _fixed_specs(20)]
     for base, cap in bases:
         for target in ("framework", "databook", "progbook"):
-            if "lib" in base and target != "framework" and not os.path.exists(_lib_path(base["lib"], target[:4] + "book")):
+            if "lib" in base and target != "framework" and (not os.path.exists(_lib_path(base["lib"], target[:4] + "book")) or (base["lib"], target) in HEAVY):
                 continue
             for eid, n in site_counts(base, target).items():
                 if eid.endswith(".identity"):
